@@ -156,7 +156,7 @@ pub fn derive_contig(rng: &mut Rng, src: &[u8], div_pm: u64, iupac: bool) -> Vec
 /// A synthetic pangenome. Contig lengths are chosen relative to k and the segment size so that
 /// contigs shorter than k, single-segment contigs and contigs of dozens of segments all occur.
 pub fn sample_set(rng: &mut Rng, p: &Params, shape: &Shape) -> SampleSet {
-    let ns = if shape.allow_many_samples && rng.chance(1, 12) {
+    let ns = if shape.allow_many_samples && rng.chance(1, 10) {
         rng.usize(51, shape.max_samples.max(52))
     } else {
         rng.usize(1, shape.max_samples.min(9))
@@ -166,8 +166,15 @@ pub fn sample_set(rng: &mut Rng, p: &Params, shape: &Shape) -> SampleSet {
     // their first 49-entry pack), otherwise few contigs at high divergence (LZ groups collect
     // more than 50 distinct deltas)
     let orphan_mode = many && rng.chance(1, 3);
+    // pack stress: one or two contigs of a few segments, >100 samples at ~1-3 % divergence, a
+    // fifth of the samples exact copies of an earlier sample: every LZ group collects several
+    // 50-entry packs and sees duplicate deltas in each of them
+    let pack_stress = many && !orphan_mode && rng.chance(1, 2);
+    let ns = if pack_stress { rng.usize(105, shape.max_samples.max(106)) } else { ns };
     let nbase = if orphan_mode {
         rng.usize(8, 10)
+    } else if pack_stress {
+        rng.usize(1, 2)
     } else if many {
         rng.usize(1, 3)
     } else {
@@ -183,6 +190,7 @@ pub fn sample_set(rng: &mut Rng, p: &Params, shape: &Shape) -> SampleSet {
             1 => rng.usize(k, k + 3),
             2 => rng.usize(1, 3),
             3 | 4 => rng.usize(seg / 2 + 1, 2 * seg + k),
+            _ if pack_stress => rng.usize(2, 4) * (seg + k),
             _ => {
                 let nseg = if many { rng.usize(1, 4) } else { rng.usize(2, 24) };
                 (nseg * (seg + k)).min(shape.max_contig_len)
@@ -205,8 +213,22 @@ pub fn sample_set(rng: &mut Rng, p: &Params, shape: &Shape) -> SampleSet {
     for si in 0..ns {
         let sname = if pansn { format!("S{:03}#{}", si, si % 2) } else { format!("smp{:03}", si) };
         let mut contigs: Vec<(String, Vec<u8>)> = Vec::new();
+        if pack_stress && si > 4 && rng.chance(1, 5) {
+            // exact copy of an earlier (diverged) sample under new names
+            let src: &Sample = &samples[rng.usize(1, si - 1)];
+            let contigs: Vec<(String, Vec<u8>)> = src
+                .contigs
+                .iter()
+                .enumerate()
+                .map(|(j, c)| (contig_header(rng, pansn, &sname, j, j), c.1.clone()))
+                .collect();
+            samples.push(Sample { name: sname, contigs });
+            continue;
+        }
         let div = if si == 0 {
             0
+        } else if pack_stress {
+            *rng.pick(&[8u64, 15, 25])
         } else if many && rng.chance(2, 3) {
             *rng.pick(&[8u64, 15, 30])
         } else {
